@@ -15,13 +15,14 @@ Lines (tab separated):
   lend.op <name> args… <outcome> <state>                         -- outcome ∈ ok err err:basic panic
   lend.handover borrowId newInterest <outcome> <state>           -- the V2 liquidation hand-over (own trace kind: own call site)
   lend.close bidder borrowId paid recv left topUp <outcome> <state>  -- the closing bid of the V2 auction (MsgCloseDutchAuctionForBorrow)
+  lend.beginblock <outcome> <state>                              -- the x/lend block hook at a height divisible by 14400
 <state> := ctr(lendCtr,borrowCtr,blockTime)  L  B  S  K  P  F  AB  AL  R  V   (eleven fields, records `|`-separated, record fields `:`-separated)
   L id:owner:pool:asset:amountIn:avail:app
   B id:lendingId:pairId:inDenom:amountIn:outDenom:amountOut:interest:stable:liq:brDenom:bridged:reserveInt
   S pool:asset:totalLend:totalBorrowed:totalStable:totalInterest:lendIds:borrowIds          (id lists `.`-separated)
   R asset:reserve:buyback:outToLenders:outForAuction:inLiqPenalty:inRepayments:totalOutToLenders:funded   (all-zero records omitted)
   V borrowId:owner:targetDebt:fee                                                          (locked vaults of handed-over borrows)
-  K acct:denom:amount        P asset:twa        F killedApps/depreciatedPools (comma lists)
+  K acct:denom:amount        P asset:twa        F killedApps/depreciatedPools/pendingEntries/deletedPools (comma lists)
   AB id:globalIndex:reserveGlobalIndex:lastInteraction:stableRate      AL id:globalIndex:lastInteraction:rewardTracker   (accrual state)
 External inputs: a borrow accrual slot is `dI:dR:apr:rr` | `!:apr:rr` | `-`, a lend accrual slot `reward:apr`. The RATES (apr, rr) are what
 the model consumes: it recomputes the amounts and the indices with `Model/LendAccrual.lean` from its own accrual state and the block
@@ -31,7 +32,8 @@ Hand-over: `borrowId newInterest apr:rr`.   The model is re-synchronised to the 
 
 Monitors (evaluated on the REAL state projection): total_lend total_borrowed total_stable ltv ltv_exact pool_funds pledged_safe,
 total_lend_orphaned, ids_consistent (every pool-asset record lists exactly the ids of its live lends / borrows, in order), reserve_ledger
-(reserve module balance = genesis + recorded inflows − recorded outflows, per asset), reserve_halves (ReserveAmount = BuybackAmount). The three book monitors compare, per (pool, asset), the GAP between the published total and the sum over
+(reserve module balance = genesis + recorded inflows − recorded outflows, per asset; `reserve_ledger_poolsweep` instead, on a block-hook
+line whose gap change is exactly the pool balances the hook swept into the reserve: finding), reserve_halves (ReserveAmount = BuybackAmount). The three book monitors compare, per (pool, asset), the GAP between the published total and the sum over
 positions before and after the line and fire when a gap changes to a non-zero value — so a mismatch that is already there (a known
 finding earlier in the history) neither repeats on later lines nor hides a new cause. `total_lend_orphaned` replaces `total_lend` on a
 hand-over line whose new gap is exactly what was left in the lend position the hand-over deleted (availableToBorrow + other open
@@ -109,13 +111,14 @@ def parseState (f : List String) : Option State :=
     let ss ← (splitOnNE s "|").mapM parseStats
     let ks ← (splitOnNE k "|").mapM parseBal
     let ps ← (splitOnNE p "|").mapM parsePrice
-    let (kl, dp) ← match fl.splitOn "/" with
-      | [a, b] => do pure ((← parseNatList a), (← parseNatList b))
+    let (kl, dp, pend, del) ← match fl.splitOn "/" with
+      | [a, b] => do pure ((← parseNatList a), (← parseNatList b), [], [])
+      | [a, b, c, d] => do pure ((← parseNatList a), (← parseNatList b), (← parseNatList c), (← parseNatList d))
       | _ => none
     let rs ← (splitOnNE rv "|").mapM parseResv
     let vs ← (splitOnNE lv "|").mapM parseLocked
     pure { lends := ls, borrows := bs, stats := ss, bank := ks, lendCtr := lc, borrowCtr := bc, prices := ps, killed := kl, depPools := dp,
-           resv := rs, locked := vs }
+           depPending := pend, delPools := del, resv := rs, locked := vs }
   | _ => none
 
 /-- reported outcome of one `IterateBorrow` plus the rates it used (`none` = not available) -/
@@ -212,7 +215,9 @@ def parseOp (name : String) (a : List String) : Option Op :=
     let t ← parseNat? twa
     pure (.setPrice (← parseNat? asset) (if t = 0 then none else some t))
   | "setKill", [app, on] => do pure (.setKill (← parseNat? app) (← parseBool? on))
-  | "setDepreciated", [pool] => do pure (.setDepreciated (← parseNat? pool))
+  | "setDepreciated", [pool] => do pure (.setDepreciated (← parseNat? pool) true)
+  | "setDepreciated", [pool, flag] => do pure (.setDepreciated (← parseNat? pool) (← parseBool? flag))
+  | "beginBlock", [] => pure .beginBlock
   | "handover", [id, ni, _] => do pure (.handover (← parseNat? id) (← parseInt? ni))
   | "handover", [id, ni] => do pure (.handover (← parseNat? id) (← parseInt? ni))
   | "bid", [u, id, paid, recv] => do pure (.bid (← parseNat? u) (← parseNat? id) (← parseInt? paid) (← parseInt? recv))
@@ -261,7 +266,8 @@ def canon (_cfg : Cfg) (s : State) : Canon :=
     stats := "|".intercalate ((sortBy (fun a b => a.pool < b.pool || (a.pool == b.pool && a.asset < b.asset)) s.stats).map showStats),
     bank := "|".intercalate (bal.map fun e => s!"{e.1.1}:{e.1.2}:{e.2}"),
     prices := "|".intercalate ((sortBy (fun a b => a.1 < b.1) s.prices).map fun e => s!"{e.1}:{e.2}"),
-    flags := showNatList (sortBy (fun a b => a < b) s.killed.eraseDups) ++ "/" ++ showNatList (sortBy (fun a b => a < b) s.depPools.eraseDups),
+    flags := showNatList (sortBy (fun a b => a < b) s.killed.eraseDups) ++ "/" ++ showNatList (sortBy (fun a b => a < b) s.depPools.eraseDups)
+             ++ "/" ++ showNatList s.depPending ++ "/" ++ showNatList (sortBy (fun a b => a < b) s.delPools.eraseDups),
     resv := "|".intercalate ((sortBy (fun a b => a.asset < b.asset) rrecs).map showResv),
     locked := "|".intercalate ((sortBy (fun a b => a.borrowId < b.borrowId) s.locked).map showLocked) }
 
@@ -601,8 +607,16 @@ def handleOp (st : St) (seq name : String) (args : List String) (outcome : Strin
     -- reserve ledger: balance of the reserve module account − genesis balance − flow recorded, per asset (gap changes are reported)
     let resGaps (x : State) : List ((Nat × Nat) × Int) := (st.cfg.assets.map fun a =>
         ((0, a.id), x.bank.get st.cfg.reserveAcct a.id - st.bank0.get st.cfg.reserveAcct a.id - (getResv x.resv a.id).flow)).filter fun e => e.2 != 0
+    -- the block hook sweeps a deleted pool's balances into the reserve without a flow record (finding): own monitor name when the
+    -- gaps moved by exactly what the DIFF-free model moved into the reserve
+    let sweepOnly : Bool := match op, step st.cfg pre op with
+      | .beginBlock, .ok m => st.cfg.assets.all fun a =>
+          ((resGaps impl).lookup (0, a.id)).getD 0 - ((resGaps pre).lookup (0, a.id)).getD 0
+            == m.bank.get st.cfg.reserveAcct a.id - pre.bank.get st.cfg.reserveAcct a.id
+      | _, _ => false
+    let ledgerName := if sweepOnly then "reserve_ledger_poolsweep" else "reserve_ledger"
     let mons := mons ++ (if idsBad then ["ids_consistent"] else [])
-                     ++ (if gapChanged (resGaps pre) (resGaps impl) then ["reserve_ledger"] else [])
+                     ++ (if gapChanged (resGaps pre) (resGaps impl) then [ledgerName] else [])
                      ++ (if !decide (HalvesEq impl) && decide (HalvesEq pre) then ["reserve_halves"] else [])
     let mons := mons ++ (if gl then [lendName] else [])
                      ++ (if gapChanged (borGaps st.cfg false pre) (borGaps st.cfg false impl) then ["total_borrowed"] else [])
@@ -656,7 +670,7 @@ def handle (st : St) (seq : String) (f : List String) : St × List String :=
     match parseState rest with
     | some s =>
       -- the model's genesis must be the real genesis: zero totals for every (pool, asset)
-      let g := { Comdex.Lend.init st.cfg s.bank s.prices with killed := s.killed, depPools := s.depPools }   -- no ids, no reserve records, no locked vaults
+      let g := { Comdex.Lend.init st.cfg s.bank s.prices with killed := s.killed, depPools := s.depPools, depPending := s.depPending, delPools := s.delPools }   -- no ids, no reserve records, no locked vaults
       let d := (diffCanon (canon st.cfg g) (canon st.cfg s)).map fun x => s!"DIFF\t{seq}\tinit\t{x}"
       match parseAcc rest with
       | some (now, ab, al) => ({ st with s := s, accB := ab, accL := al, now := now, bank0 := s.bank }, d)
@@ -664,6 +678,7 @@ def handle (st : St) (seq : String) (f : List String) : St × List String :=
     | none => bad "init state"
   | "lend.handover" :: rest => opLine st seq "handover" rest
   | "lend.close" :: rest => opLine st seq "auctionClose" rest
+  | "lend.beginblock" :: rest => opLine st seq "beginBlock" rest
   | "lend.op" :: name :: rest => opLine st seq name rest
   | _ => bad "unknown lend line"
 
